@@ -279,7 +279,18 @@ def extract_tables(binary):
     return json.loads(out)
 
 
+# the shape of escape_keyword the theorems were proved about; used ONLY to keep the model building when the extractor
+# cannot translate the current escape_keyword (the extractor's error then breaks the tie: VIOLATION ... no-failing-input-found
+# unless the renaming oracle below finds a failing program)
+NOMINAL_ESCAPE_RULES = [{"cond": {"in": ["self", "Self", "crate", "super"]}, "result": ["", ""]},
+                        {"cond": {"rust_keyword": True}, "result": ["r#", ""]}, {"cond": {"always": True}, "result": ["", ""]}]
+
+
 def write_generated(tab):
+    if tab.get("escape_rules") is None:
+        tab["escape_rules"] = NOMINAL_ESCAPE_RULES
+        if not any("escape_keyword" in e for e in tab.get("errors", [])):
+            tab.setdefault("errors", []).append("escape_keyword: the extractor could not translate the current function body")
     d = os.path.join(vlib.COQ, "Gen")
     os.makedirs(d, exist_ok=True)
     p = os.path.join(d, "C13Sites.v")
